@@ -334,13 +334,14 @@ class Message:
         if 'packet_id' in dict_val:
             # extended format
             msg.packet_id = dict_val['packet_id']
-            msg.meta = dict_val['meta']
+            # The LLSD form has arrays but no tuples, the meta values we attach ourselves are tuples
+            msg.meta = {k: tuple(v) if isinstance(v, list) else v for k, v in dict_val['meta'].items()}
             msg.dropped = dict_val['dropped']
             msg.synthetic = dict_val['synthetic']
             msg.direction = Direction[dict_val['direction']]
             msg.send_flags = dict_val['send_flags']
             msg.extra = dict_val['extra']
-            msg.acks = dict_val['acks']
+            msg.acks = tuple(dict_val['acks'])
         return msg
 
     @classmethod
